@@ -1093,6 +1093,17 @@ pub fn run(prop: &str, tier: Tier, seed: u64) -> i32 {
   let scfg = SearchCfg { prop, label: "case", seed, shards, cases_per_shard: cases, max_shrink_iters: 3000 };
   let (stats, found) = driver::search(&scfg, &known, || spec_strategy(spec, cfg.clone()), |c, s| check(spec, c, s), |c| pretty_case(c));
   report.absorb("case", stats, found);
+  // Long histories of small programs (both tiers): state that only builds up over many sessions.
+  if report.violations.is_empty() && prop != "C16" {
+    let mut long = (spec.cfg)(tier);
+    long.max_tasks = 5;
+    long.max_steps = match tier { Tier::Quick => 120, Tier::Thorough => 300 };
+    let cases_long = match tier { Tier::Quick => 40, Tier::Thorough => 1500 };
+    let scfg = SearchCfg { prop, label: "long", seed, shards: 16, cases_per_shard: cases_long, max_shrink_iters: 1500 };
+    let (stats, found) = driver::search(&scfg, &known, || spec_strategy(spec, long.clone()), |c, s| check(spec, c, s), |c| pretty_case(c));
+    report.extra.insert("long_history_cases".into(), json!(stats.evaluations));
+    report.absorb("case", stats, found);
+  }
   // Thorough tier: a second search over larger programs and longer histories (fewer, bigger cases).
   if tier == Tier::Thorough && report.violations.is_empty() {
     let mut big = (spec.cfg)(tier);
